@@ -481,7 +481,8 @@ async fn h3_session(addr: std::net::SocketAddr, sni: Option<String>, reqs: &[Req
         hs.push((b"user-agent".to_vec(), b"verif".to_vec()));
         let has_body = r.kind == 7 || r.kind == 8;
         let res = async {
-            let id = h3.request(&hs, false)?;
+            // a request without a body ends with its head, as a standard client sends it; a tunnel stays open
+            let id = h3.request(&hs, r.kind == 6)?;
             if has_body {
                 h3.send_body(id, &r.payload, true).await;
             }
@@ -497,7 +498,7 @@ async fn h3_session(addr: std::net::SocketAddr, sni: Option<String>, reqs: &[Req
                 h3.send_body(id, &p, false).await;
             }
             h3.drive(Duration::from_millis(120), |_| false).await;
-            if !has_body {
+            if r.kind == 1 {
                 h3.send_body(id, &[], true).await;
             }
             let st = h3.streams[&id].clone();
